@@ -276,7 +276,7 @@ func C13(p *core.Program, r *core.Report) {
 	}
 	for _, e := range notif {
 		fn := e.fn
-		eps := core.CallsTo(fn, bp7+".PreviousNodeBlock.Endpoint")
+		eps := core.CallsToWithHelpers(fn, bp7+".PreviousNodeBlock.Endpoint", 12)
 		base := "previous-node/" + fname(fn) + "/"
 		if len(eps) == 0 {
 			r.Fail(base+"read", "NotifyNewBundle reads the previous-node block", p.Pos(fn.Pos()), "no call to PreviousNodeBlock.Endpoint")
@@ -302,6 +302,36 @@ func C13(p *core.Program, r *core.Report) {
 					}
 				}
 			})
+			// the metadata may be built by a constructor helper that records the previous node itself
+			builtByRecorder := func(v ssa.Value) bool {
+				return core.DependsOn(v, func(x ssa.Value) bool {
+					c, ok := x.(*ssa.Call)
+					if !ok {
+						return false
+					}
+					h := c.Common().StaticCallee()
+					if h == nil || h.Pkg != fn.Pkg || h.Blocks == nil || h == fn {
+						return false
+					}
+					rec := false
+					core.EachInstr(h, func(i2 ssa.Instruction) {
+						if st, ok := i2.(*ssa.Store); ok && core.IsField(st.Addr, routingPkg, "sprayMetaData", "sent") && core.DependsOn(st.Val, func(y ssa.Value) bool {
+							cc, ok := y.(*ssa.Call)
+							return ok && core.NameIs(core.CalleeName(cc), bp7+".PreviousNodeBlock.Endpoint")
+						}) {
+							rec = true
+						}
+					})
+					return rec
+				})
+			}
+			if !okS {
+				core.EachInstr(fn, func(in ssa.Instruction) {
+					if mu, ok := in.(*ssa.MapUpdate); ok && pathEndsWith(mu.Map, "bundleData") && builtByRecorder(mu.Value) {
+						okS = true
+					}
+				})
+			}
 			r.Check(okS, base+"recorded", "the node a bundle came from is put into the bundle's metadata.sent and written to bundleData", p.Pos(eps[0].Pos()), "", "previous node not recorded")
 			// ... on every branch that initialises the metadata (a bundle without the algorithm's own block, or one
 			// with our own source, can still have been handed over by a peer)
@@ -317,7 +347,7 @@ func C13(p *core.Program, r *core.Report) {
 				if ok {
 					holder, _ = ld.X.(*ssa.Alloc)
 				}
-				okB := false
+				okB := builtByRecorder(mu.Value)
 				if holder != nil {
 					core.EachInstr(fn, func(i2 ssa.Instruction) {
 						st, ok := i2.(*ssa.Store)
@@ -381,6 +411,9 @@ func C13(p *core.Program, r *core.Report) {
 
 	// ---- (7) one dispatching per bundle at a time
 	checkDispatchExclusive(p, r)
+
+	// ---- (8) per-bundle routing state edited in a store item is written back
+	checkPropertiesPersisted(p, r)
 
 	// ---- (5) direct delivery
 	fwd := p.Func(routingPkg, "Core", "forward")
@@ -805,4 +838,50 @@ func checkDispatchExclusive(p *core.Program, r *core.Report) {
 	})
 	r.Count("guarded steps of dispatching", n)
 	r.Min("guarded steps of dispatching", 3)
+}
+
+// checkPropertiesPersisted: a routing algorithm keeps per-bundle state in the
+// Properties map of the bundle's store item. The map it edits is a copy
+// loaded by Store.QueryId; nothing is kept unless Store.Update writes the item
+// back. Every assignment to Properties[...] in routing code must therefore be
+// followed by Store.Update on every path to a return of the function (a later
+// early return must not skip it). Functions that hand the item to their
+// caller (it is one of their results) are exempt: the caller's update counts.
+func checkPropertiesPersisted(p *core.Program, r *core.Report) {
+	n := 0
+	reach := p.DaemonReachable()
+	for _, fn := range p.RepoFuncs() {
+		if fn.Pkg != p.Pkg(routingPkg) || !reach[topFunc(fn)] {
+			continue
+		}
+		// exempt: Sync itself (it is the writer) and functions returning the item
+		if fname(fn) == "pkg/routing.BundleDescriptor.Sync" {
+			continue
+		}
+		returnsItem := false
+		for i := 0; i < fn.Signature.Results().Len(); i++ {
+			if core.TypeIs(fn.Signature.Results().At(i).Type(), storagePkg, "BundleItem") {
+				returnsItem = true
+			}
+		}
+		for _, mu := range propertiesUpdates(fn) {
+			n++
+			key := "?"
+			if k, ok := constStringOf(mu.Key, nil); ok {
+				key = k
+			}
+			if returnsItem {
+				r.OK("properties-persisted/"+fname(fn)+"/"+key, "an edit of a store item's Properties is followed by Store.Update on every path", p.Pos(mu.Pos()), "the edited item is returned to the caller")
+				continue
+			}
+			ok, ex := core.MustPassAfter(mu, isStoreUpdate, core.IsReturn)
+			d := ""
+			if !ok && ex != nil {
+				d = "the return at " + p.Pos(ex.Pos()) + " is reachable without Store.Update: the value lives only in this call's copy of the item"
+			}
+			r.Check(ok, "properties-persisted/"+fname(fn)+"/"+key, "an edit of a store item's Properties is followed by Store.Update on every path to a return (the item is a copy loaded by QueryId)", p.Pos(mu.Pos()), "", d)
+		}
+	}
+	r.Count("Properties edits in routing code", n)
+	r.Min("Properties edits in routing code", 6)
 }
